@@ -66,6 +66,7 @@ import io
 import itertools
 
 from .width import sw
+from . import dyn
 
 LEAF_KINDS = ("text", "rule", "bar", "pbar")
 WRAPPER_KINDS = ("nomeasure", "cast")
@@ -318,7 +319,7 @@ def _targ(v, bind):
 
 def build(d, bind=None):
     kind, o, kids = d
-    g = lambda name: o.get(name, DEFAULTS[kind][name])  # noqa: E731
+    g = lambda name: dyn(o.get(name, DEFAULTS[kind][name]))  # noqa: E731  (string options as run-time strings)
     if kind == "text":
         from rich.text import Text
         key = o.get("share")
@@ -397,7 +398,7 @@ def build(d, bind=None):
             if i == 0 and g("ftr") is not None:
                 ftr = _targ(g("ftr"), bind)
             t.add_column(hdr, ftr,
-                         **{name: c.get(name, cd[name]) for name in cd})
+                         **{name: dyn(c.get(name, cd[name])) for name in cd})
         if ncols:
             for r in range(len(kids) // ncols):
                 t.add_row(*[build(k, bind) for k in kids[r * ncols:(r + 1) * ncols]])
